@@ -34,9 +34,12 @@ void initDVectorList(dvectorlist **lst){
 
 void NewDVectorList(dvectorlist **lst, size_t size_)
 {
+  size_t i;
   (*lst) = xmalloc(sizeof(dvectorlist));
   (*lst)->size = size_;
   (*lst)->d = xmalloc(sizeof(dvector*)*size_);
+  for(i = 0; i < size_; i++)
+    initDVector(&(*lst)->d[i]);
 }
 
 void DelDVectorList(dvectorlist **lst)
